@@ -82,7 +82,7 @@ POINTS = {
     "hb_stopping": [BF, BT, AR, WD], "hb_rush_stopping": [BF, BT, AR, WD],
     "hb_promotion": [BF, BT, AR, RS, WD], "hb_cost_promotion": [BF, BT, AR, RS, WD],
     "hb_rush_promotion": [BF, BT, AR, RS, WD], "hb_pasha": [BF, BT, RS, WD],
-    "sync": [BF, BT, AR, RS, WD], "dehb": [BF, BT, WD],
+    "sync": [BF, BT, AR, RS, WD], "dehb": [BF, BT, RS, WD],
     "pbt": [BF, BT, AR, WD], "msr": [BF, BT, AR, WD], "moasha": [BF, BT, AR, WD],
 }
 GP_VARIANTS = [("hb_stopping", "bayesopt"), ("hb_stopping", "hypertune"), ("hb_promotion", "bayesopt"),
@@ -119,7 +119,7 @@ def _plan(tier):
     for kind, pts in POINTS.items():
         if kind == "dehb":
             for pt in pts:
-                out.append((kind, None, pt, 8 * k))
+                out.append((kind, None, pt, (40 if pt == RS else 8) * k))
             continue
         for pt in pts:
             n = 32
@@ -1400,8 +1400,13 @@ def run_case(spec):
             o.count("failures:" + point)
             top.failures.append((tid, point, level))
         elif fam == "dehb" and top.failures and api == "suggest":
-            o.violate("later_calls_return" if exc != "StepBudgetExceeded" else "bracket_progress",
-                      f"{label}:{top.ctx()}:suggest_fails_after_failed_slot", d)
+            msg = str(vt.raised[2]) if len(vt.raised) > 2 else ""
+            if exc == "KeyError" and "KeyError(None)" not in msg:
+                # not the 'slot of a failed job holds trial id None' finding (C05-K3 / C13-K6): bookkeeping of a real trial is gone
+                o.violate("later_calls_return", f"{label}:{top.ctx()}:suggest_raises_KeyError_for_a_known_trial", d)
+            else:
+                o.violate("later_calls_return" if exc != "StepBudgetExceeded" else "bracket_progress",
+                          f"{label}:{top.ctx()}:suggest_fails_after_failed_slot", d)
         elif exc == "StepBudgetExceeded":
             o.violate("bracket_progress", f"{label}:{top.ctx()}:{api}_exceeds_step_budget", d)
         else:
